@@ -326,6 +326,7 @@ func StressV2(seed int64, dur time.Duration) (panics int64) {
 			_, _, _ = op.Payload(), op.IsBatchable(), op.Watcher()
 			if op.Attempt() < 3 && op.Cost()%3 == 1 && nretry.Add(1)%2 == 0 {
 				_ = bat.Enqueue(op)
+				_ = bat.Enqueue(op) // twice: two batches then carry the same operation
 			}
 		}
 		time.Sleep(time.Duration(len(batch)) * 100 * time.Microsecond)
@@ -348,7 +349,11 @@ func StressV2(seed int64, dur time.Duration) (panics int64) {
 			for time.Now().Before(stop) {
 				switch r.Intn(14) {
 				case 0, 1, 2, 3:
-					bat.Enqueue(b2.NewOperation(w, uint32(r.Intn(6)), nil, r.Intn(3) > 0))
+					op := b2.NewOperation(w, uint32(r.Intn(6)), nil, r.Intn(3) > 0)
+					bat.Enqueue(op)
+					if r.Intn(3) == 0 {
+						bat.Enqueue(op) // the same operation again before it was delivered
+					}
 				case 4:
 					bat.Flush()
 				case 5:
@@ -399,12 +404,9 @@ func StressV1(seed int64, dur time.Duration) (panics int64) {
 	w := b1.NewWatcher(func(batch []b1.IOperation) {
 		for _, op := range batch {
 			_, _, _ = op.Payload(), op.IsBatchable(), op.Watcher()
-			if op.Attempt() < 3 && op.Cost()%3 == 1 && nretry.Add(1)%2 == 0 {
-				func() {
-					defer func() { recover() }() // v1: Enqueue after Stop panics (known finding D2)
-					_ = bat.Enqueue(op)
-				}()
-			}
+			// v1: no Enqueue from here (an Enqueue that overlaps Stop() is the known finding D2); the enqueuers below
+			// submit some operations twice instead, so that two batches carry the same operation
+			nretry.Add(int64(op.Attempt()))
 		}
 		time.Sleep(time.Duration(len(batch)) * 100 * time.Microsecond)
 	}).WithMaxBatchSize(4).WithMaxAttempts(3)
@@ -426,7 +428,11 @@ func StressV1(seed int64, dur time.Duration) (panics int64) {
 			for time.Now().Before(stop) {
 				switch r.Intn(11) {
 				case 0, 1, 2, 3:
-					bat.Enqueue(b1.NewOperation(w, uint32(r.Intn(6)), nil, r.Intn(3) > 0))
+					op := b1.NewOperation(w, uint32(r.Intn(6)), nil, r.Intn(3) > 0)
+					bat.Enqueue(op)
+					if r.Intn(3) == 0 {
+						bat.Enqueue(op) // the same operation again before it was delivered
+					}
 				case 4:
 					bat.Flush()
 				case 5:
